@@ -3,8 +3,10 @@
 Inputs: timed pop-on programs: loads `ENM RCL (PAC text)+` displayed by EOC; the displayed caption is cleared by an
 EDM on the same line (0-6 filler words before the next EOC), by an EDM on a line of its own, by the next EOC, by a
 bare EOC, or never; drop / non-drop timecodes; codes doubled or single; inter-line gaps 0..6, 30, 300 frames;
-offsets 0, 0.5, 1, 3599 s and an offset larger than the timecodes.
-Observation (public API): SCCReader().read(stream, offset=o) -> [(start, end)] as exact rationals, or the exception.
+offsets 0, 0.5, 1, 3599 s, negative, fractional and an offset larger than the timecodes (see res["rule"] for the
+full list of shapes); a third of the programs are read by a reader OBJECT that has already read other files with other
+offsets (incl. 0), an offset of 0 passed explicitly or left to the default.
+Observation (public API): reader.read(stream, offset=o) -> [(start, end)] as exact rationals, or the exception.
 Correspondence: (a) the full extracted decoder model (coq/model/SccDecoder.v, request 600) on the same lines,
 (b) the event-level model (coq/model/SccPopon.v, request 604) on the display events, both within 2^-10 us.
 Property oracle: Coq ok_c06 (coq/spec/SpecSccTime.v) on the implementation's observation and the display events
@@ -153,8 +155,14 @@ def wire_events(p):
     return [[kind, tc_fields(p["lines"][li][0], p["drop"]), k] for kind, li, k in p["events"]]
 
 
-def observe(stream, offset):
-    r = impl.call(lambda: SCCReader().read(stream, offset=offset))
+def observe(stream, offset, history=None, default_offset=False):
+    """history = [(stream, offset), ...]: earlier reads on the SAME reader object (whatever they return or raise);
+    default_offset: the offset (0) is left to the default of read()"""
+    reader = SCCReader()
+    for hs, hoff in history or ():
+        impl.call(lambda: reader.read(hs, offset=hoff))
+    kw = {} if default_offset else {"offset": offset}
+    r = impl.call(lambda: reader.read(stream, **kw))
     if isinstance(r, Err):
         return r
     return Ok([[exact(c.start), exact(c.end)] for c in r.v.get_captions("en-US")])
@@ -198,7 +206,23 @@ def run(ctx):
     res["distribution"] = dist
     progs = [gen_program(rng) for _ in range(ctx.n(1500, 40000))]
     streams = [render(p) for p in progs]
-    obs = [observe(s, p["offset"]) for s, p in zip(streams, progs)]
+    # reader-reuse histories: a third of the programs are read by a reader object that has already read 1-2 files with
+    # OTHER offsets (non-zero as well as 0); an offset of 0 is passed explicitly or left to the default. The expectation
+    # depends on this read's own offset only.
+    dist["history"] = {"none": 0, "earlier_reads": 0, "earlier_nonzero_then_zero": 0, "offset_left_to_default": 0}
+    for i, p in enumerate(progs):
+        p["history"] = None
+        p["default_offset"] = p["offset"] == 0 and rng.random() < 0.5
+        dist["history"]["offset_left_to_default"] += p["default_offset"]
+        if rng.random() < 0.33:
+            p["history"] = [[streams[rng.randrange(len(streams))] if rng.random() < 0.6 else streams[i],
+                             rng.choice([1, 2, 0.5, 30, 3599, -1, 0, rng.randint(1, 100)])]
+                            for _ in range(rng.choice([1, 1, 2]))]
+            dist["history"]["earlier_reads"] += len(p["history"])
+            dist["history"]["earlier_nonzero_then_zero"] += p["offset"] == 0 and p["history"][-1][1] != 0
+        else:
+            dist["history"]["none"] += 1
+    obs = [observe(s, p["offset"], p["history"], p["default_offset"]) for s, p in zip(streams, progs)]
     reqs = []
     for p, o in zip(progs, obs):
         off_us = exact(p["offset"]) * 1000000
@@ -239,6 +263,7 @@ def run(ctx):
             if e1[0] == 0 and abs((t2 - t1) - 50000) < 10000:
                 dist["durations_within_10ms_of_flash_bound"] += 1
         desc = {"drop": p["drop"], "doubled": p["doubled"], "offset": p["offset"],
+                "offsets_of_earlier_reads_on_the_reader": [h[1] for h in p["history"] or []],
                 "lines": [[g.timecode(f, p["drop"]), " ".join(ws)] for f, ws in p["lines"]],
                 "events": wire_events(p)}
         oscreens = Ok(screens(o.v)) if isinstance(o, Ok) else o
@@ -264,6 +289,7 @@ def run(ctx):
                          "end (4 s default / next start)" if sentinel else
                          "caption (start, end) differ from the instants at which EOC / EDM were transmitted"),
                 "input": desc, "stream": s, "offset": p["offset"], "events": wire_events(p),
+                "history": p["history"], "default_offset": p["default_offset"],
                 "impl_obs": o.v if isinstance(o, Ok) else repr(o),
                 "expected": expected.v if isinstance(expected, Ok) else repr(expected)})
             continue
@@ -284,7 +310,8 @@ def run(ctx):
                    "10% lines with 60-95 filler words (three-digit frame field); inter-line gaps {0..6, 30, 300} frames; "
                    "start timecodes {0, 1 frame, 59 s, 1 h, 1 h + 17 f, 2:02:02, 10:59:58, 12:34:56:29, 23:45:00}; offsets "
                    "0, {1, 0.5, -2, -0.75, 7}, {3599, 3599.5, 1800}, uniform random in [0,2] / [-3,3], beyond the last "
-                   "timecode. Non-trivial: at least two captions and (offset != 0 or drop-frame or an explicit clear). "
+                   "timecode; a third of the programs read by a reader object that has already read 1-2 files with other "
+                   "offsets (incl. 0), offset 0 passed explicitly or left to the default. Non-trivial: at least two captions and (offset != 0 or drop-frame or an explicit clear). "
                    "Distinct (stream, offset).")
     res["samples"] = [{"drop": p["drop"], "offset": p["offset"], "stream": s} for p, s in list(zip(progs, streams))[:2]]
     res["clauses"] = {
@@ -306,7 +333,7 @@ def run(ctx):
 
 
 def replay(ctx, rec):
-    o = observe(rec["stream"], rec["offset"])
+    o = observe(rec["stream"], rec["offset"], rec.get("history"), rec.get("default_offset", False))
     off_us = exact(rec["offset"]) * 1000000
     okr = oracle1(601, [off_us, rec["events"], o])
     return okr[0] != 1, repr(o)[:600]
